@@ -220,6 +220,26 @@ func runC10(c *core.Ctx) error {
 		return err
 	}
 	c.AddTLC("SchemaApi_shared.cfg", shared)
+	// one type object shared by two roots that define the type it refers to differently (SchemaApi_shareditem.cfg)
+	sharedItem, err := tlc.Run(tlc.Opts{Module: "SchemaApi", Cfg: "SchemaApi_shareditem.cfg", Workers: 16, Timeout: 40 * time.Minute, OnLine: func(l string) {
+		n++
+		// the histories of interest have both roots complete and both asked
+		if strings.Count(l, `"op":"Example"`) < 2 || strings.Count(l, `"op":"AddType"`) < 4 {
+			return
+		}
+		if !c.Thorough() && (n+int(c.Seed))%3 != 0 {
+			return
+		}
+		cases = append(cases, json.RawMessage(l))
+	}})
+	sharedItem.Cleanup()
+	if err != nil {
+		return err
+	}
+	if err := sharedItem.MustOK(); err != nil {
+		return err
+	}
+	c.AddTLC("SchemaApi_shareditem.cfg", sharedItem)
 	c.Set("histories", len(cases))
 	// repetition sweeps, spread over the worker processes
 	for i := 0; i < 48; i++ {
